@@ -484,7 +484,8 @@ def check_pool(case, bound, res=None, max_executions=None):
             raise RuntimeError("schedule replay is not deterministic")
         on_exec(s, outcome)
         return vio, 1, 1, s
-    ex = S.explore(lambda p: run_pool_once(case, p), bound, max_executions=max_executions, on_execution=on_exec)
+    ex = S.explore(lambda p: run_pool_once(case, p), bound, max_executions=max_executions, on_execution=on_exec,
+                   should_stop=lambda: len(vio) >= 2)
     if res is not None:
         res.traces += ex.executions
         res.states += ex.points_total + ex.executions
@@ -584,7 +585,8 @@ def check_evaluator(case, bound, res=None, max_executions=None):
             raise RuntimeError("schedule replay is not deterministic")
         on_exec(s, got)
         return vio, 1, 1, None
-    ex = S.explore(lambda p: run_evaluator_once(case, p), bound, max_executions=max_executions, on_execution=on_exec)
+    ex = S.explore(lambda p: run_evaluator_once(case, p), bound, max_executions=max_executions, on_execution=on_exec,
+                   should_stop=lambda: len(vio) >= 2)
     if res is not None:
         res.traces += ex.executions
         res.states += ex.points_total + ex.executions
